@@ -24,7 +24,7 @@ STR_FUNCS_BOOL = ("contains", "startswith", "endswith")
 SENTINEL_BASE = 7001
 
 FIELDS_SCALAR = {"a": "int", "b": "int", "s": "str", "u": "str", "f": "bool"}
-FIELDS_FULL = dict(FIELDS_SCALAR, r="float", d="dt")
+FIELDS_FULL = dict(FIELDS_SCALAR, r="float", d="dt", tags="coll")
 
 # string literal pools over the metacharacter alphabet {a A b % _ ' \ space}, at most 2 characters
 ALPHA8 = ["a", "A", "b", "%", "_", "'", "\\", " "]
@@ -43,6 +43,8 @@ def type_of(t, fields: Dict[str, str] = FIELDS_FULL) -> str:
         return k
     if k == "null":
         return "null"
+    if k == "list":
+        return "coll"
     if k == "neg":
         return type_of(t[1], fields)
     if k == "arith":
@@ -54,7 +56,7 @@ def type_of(t, fields: Dict[str, str] = FIELDS_FULL) -> str:
         return "bool"
     if k == "call":
         n = t[1]
-        if n in STR_FUNCS_BOOL:
+        if n in STR_FUNCS_BOOL or n in ("hassubset", "hassubsequence"):
             return "bool"
         if n in ("indexof", "length", "year", "month", "day", "hour", "minute"):
             return "int"
@@ -98,7 +100,7 @@ def _lit(t, kw=None) -> str:
     kw = kw or (lambda w: w)
     k = t[0]
     if k == "int":
-        return str(t[1])
+        return t[2] if len(t) == 3 else str(t[1])          # ('int', value, spelling): e.g. 007
     if k == "str":
         return "'" + t[1].replace("'", "''") + "'"
     if k == "bool":
@@ -120,6 +122,8 @@ def to_text(t, full: bool = False, kw=None) -> str:
         return _lit(t, kw)
     if k == "call":
         return t[1] + "(" + ",".join(to_text(a, full, kw) for a in t[2]) + ")"
+    if k == "list":          # a literal collection ('a', 'b')
+        return "(" + ", ".join(to_text(i, full, kw) for i in t[1]) + ")"
     if k == "path":          # to-one navigation a/b/c
         return "/".join(t[1])
     if k == "lambda":        # ('lambda', 'any'|'all', path, var|None, body|None)
@@ -161,6 +165,8 @@ def map_term(t, f):
         return f(t)
     if k == "lambda":
         return f((k, t[1], t[2], t[3], map_term(t[4], f) if t[4] is not None else None))
+    if k == "list":
+        return f((k, [map_term(i, f) for i in t[1]]))
     if k in ("neg", "not"):
         return f((k, map_term(t[1], f)))
     if k in ("and", "or"):
@@ -194,6 +200,9 @@ def subterms(t) -> Iterator[tuple]:
             yield from subterms(a)
     elif k == "lambda" and t[4] is not None:
         yield from subterms(t[4])
+    elif k == "list":
+        for i in t[1]:
+            yield from subterms(i)
 
 
 def rename_fields(t, mapping: Dict[str, str]):
@@ -525,6 +534,55 @@ def sample(xs: Sequence[Any], k: int, rng: random.Random) -> List[Any]:
 
 
 # ====================================================================== the C01 / C09 program sets
+def real_family(with_round: bool = True) -> List[Tuple[str, tuple]]:
+    """Exact non-integer arithmetic: float literals that are halves / quarters, `div` / `mul` / `add` with them, round
+    (half away from zero), floor, ceiling, compared with integers - negative midpoints are inside the row domain."""
+    a, b, k = ("field", "a"), ("field", "b"), INT_Q
+    Fl = lambda s: ("float", s)
+    xs = [("arith", "div", a, Fl("2.0")), ("arith", "mul", a, Fl("0.5")), ("arith", "add", a, Fl("0.5")), ("arith", "div", a, Fl("4.0")),
+          ("arith", "div", ("arith", "add", a, b), Fl("2.0")), ("arith", "sub", ("arith", "div", a, Fl("2.0")), Fl("0.5")),
+          ("arith", "mul", a, Fl("1.5")), ("arith", "div", a, Fl("2e0")), ("arith", "div", Fl("1.5e1"), a)]
+    out: List[Tuple[str, tuple]] = []
+    for x in xs:
+        out.append(("real", ("cmp", "gt", x, k)))
+        out.append(("real", ("cmp", "eq", x, b)))
+        out.append(("real", ("cmp", "le", k, x)))
+    out.append(("real", ("cmp", "eq", ("arith", "mul", a, Fl("0.5")), ("arith", "div", b, Fl("2.0")))))
+    out.append(("real", ("cmp", "gt", ("arith", "div", a, Fl("2e0")), ("int", 2))))
+    out.append(("real", ("cmp", "lt", ("arith", "div", a, Fl("1E1")), Fl("0.5"))))
+    fns = ("round", "floor", "ceiling") if with_round else ("floor", "ceiling")
+    for fn in fns:
+        for x in xs[:7]:
+            c = ("call", fn, [x])
+            out.append(("rounding", ("cmp", "eq", c, k)))
+            out.append(("rounding", ("cmp", "lt", c, b)))
+        c = ("call", fn, [xs[0]])
+        out.append(("rounding", ("cmp", "eq", ("arith", "mul", c, Fl("2.0")), a)))
+        out.append(("rounding", ("not", ("cmp", "ge", c, k))))
+        out.append(("rounding", ("or", ("cmp", "eq", c, ("int", -1)), ("cmp", "eq", c, ("int", 0)))))
+        out.append(("rounding", ("cmp", "eq", ("call", fn, [Fl("-0.5")]), ("arith", "sub", a, b))))
+        out.append(("rounding", ("cmp", "eq", ("call", fn, [Fl("-2.5")]), a)))
+        out.append(("rounding", ("cmp", "eq", ("call", fn, [a]), a)))
+    return out
+
+
+def literal_kind_family() -> List[Tuple[str, tuple]]:
+    """Numeric literal spellings: a Float literal must arrive as a real literal with the same value, an Integer as an
+    integer (C09: kind and value of the literal leaves; C01: `a div 2e0` is a REAL division)."""
+    a, r = ("field", "a"), ("field", "r")
+    out: List[Tuple[str, tuple]] = []
+    for sp in ("2e0", "1.5e1", "1E3", "1.0", "0.5", "1e-2", "-2.5e+1", "2.50", "1.5E1", "-0.0"):
+        lit = ("float", sp)
+        out.append(("litkind", ("cmp", "gt", r, lit)))
+        out.append(("litkind", ("cmp", "lt", ("arith", "mul", r, lit), r)))
+        out.append(("litkind", ("cmp", "gt", ("arith", "div", a, lit), INT_Q)))
+        out.append(("litkind", ("cmp", "eq", lit, ("arith", "add", r, lit))))
+    for v, sp in ((7, "007"), (0, "-0"), (12, "+12"), (0, "000")):
+        out.append(("litkind", ("cmp", "eq", a, ("int", v, sp))))
+        out.append(("litkind", ("cmp", "lt", ("arith", "add", a, ("int", v, sp)), INT_Q)))
+    return out
+
+
 def adaptive_family(extra: str) -> List[Tuple[str, tuple]]:
     """Needles containing a character the translator itself introduced (adaptive alphabet), next to wildcards."""
     s, u = ("field", "s"), ("field", "u")
@@ -594,6 +652,15 @@ def special_families(extended: bool = False) -> List[Tuple[str, tuple]]:
         out.append(("null", ("cmp", "ne", ("null",), x)))
         out.append(("null", ("not", ("cmp", "eq", x, ("null",)))))
         out.append(("null", ("not", ("cmp", "ne", ("null",), x))))
+    # ORDERING comparisons with the null literal (claim: lt / gt with null are never true; le / ge are left out because
+    # OData 4.01 words `null le null` differently from the three-valued reading)
+    for x in (a, ("arith", "add", a, b), ("call", "length", [s]), ("call", "indexof", [s, u]), s, ("call", "tolower", [s])):
+        for op in ("lt", "gt"):
+            out.append(("nullorder", ("cmp", op, x, ("null",))))
+            out.append(("nullorder", ("cmp", op, ("null",), x)))
+            out.append(("nullorder", ("not", ("cmp", op, x, ("null",)))))
+            out.append(("nullorder", ("or", ("cmp", op, x, ("null",)), ("cmp", "eq", b, k))))
+            out.append(("nullorder", ("and", ("not", ("cmp", op, ("null",), x)), ("cmp", "ne", b, k))))
     out.append(("null", ("or", ("cmp", "eq", a, ("null",)), ("and", ("cmp", "ne", b, ("null",)), ("cmp", "eq", a, k)))))
     out.append(("null", ("and", ("or", ("cmp", "eq", a, ("null",)), ("cmp", "ne", b, ("null",))), ("cmp", "eq", a, k))))
     # `not` directly over every comparator: field/literal, literal/field, field/field (boundary rows decide)
@@ -822,3 +889,46 @@ def compact_family() -> List[Tuple[str, tuple, str]]:
         for fn in STR_FUNCS_BOOL:
             out.append(("compact-spelling", ("call", fn, [s, ("str", nd)]), extra))
     return out
+
+
+# ====================================================================== functions rendered as infix expressions
+FUNCTION_SAMPLES: Dict[str, Tuple[str, List[tuple]]] = {
+    # OData built-in -> (result type, sample arguments); written from the OData function list, not from /repo
+    "contains": ("bool", [("field", "s"), ("str", "a")]), "startswith": ("bool", [("field", "s"), ("str", "a")]),
+    "endswith": ("bool", [("field", "s"), ("field", "u")]), "indexof": ("int", [("field", "s"), ("field", "u")]),
+    "length": ("int", [("field", "s")]), "concat": ("str", [("field", "s"), ("field", "u")]),
+    "substring": ("str", [("field", "s"), ("field", "a")]), "tolower": ("str", [("field", "s")]),
+    "toupper": ("str", [("field", "s")]), "trim": ("str", [("field", "s")]),
+    "year": ("int", [("field", "d")]), "month": ("int", [("field", "d")]), "day": ("int", [("field", "d")]),
+    "hour": ("int", [("field", "d")]), "minute": ("int", [("field", "d")]), "second": ("int", [("field", "d")]),
+    "date": ("date", [("field", "d")]), "now": ("dt", []),
+    "round": ("float", [("field", "r")]), "floor": ("float", [("field", "r")]), "ceiling": ("float", [("field", "r")]),
+    "hassubset": ("bool", [("field", "tags"), ("list", [("str", "a"), ("str", "b")])]),
+    "hassubsequence": ("bool", [("field", "tags"), ("list", [("str", "a"), ("str", "b")])]),
+}
+
+
+def operand_positions(call: tuple, rtype: str) -> List[Tuple[str, tuple]]:
+    """A function call as LEFT and RIGHT operand of every binary operator level its type admits, and under not / minus."""
+    a, f, k = ("field", "a"), ("field", "f"), INT_Q
+    T = ("bool", True)
+    out: List[tuple] = []
+    if rtype == "bool":
+        other = ("cmp", "lt", a, k)
+        out += [("cmp", "eq", T, call), ("cmp", "eq", call, T), ("cmp", "ne", call, f), ("cmp", "eq", f, call), ("not", call),
+                ("and", call, other), ("or", other, call), ("cmp", "eq", call, other), ("cmp", "eq", other, call),
+                ("not", ("cmp", "eq", call, T)), ("cmp", "ne", ("bool", False), ("not", call))]
+    elif rtype in ("int", "float"):
+        lit = k if rtype == "int" else ("float", "1.5")
+        ops = ARITH if rtype == "int" else ("add", "sub", "mul")
+        for op in ops:
+            out += [("cmp", "eq", ("arith", op, call, lit), lit), ("cmp", "eq", ("arith", op, lit, call), lit)]
+        out += [("cmp", "lt", call, lit), ("cmp", "gt", lit, call), ("cmp", "eq", ("neg", call), lit)]
+        if rtype == "int":
+            out.append(("in", call, [k, a]))
+    elif rtype == "str":
+        u = ("field", "u")
+        out += [("cmp", "eq", call, u), ("cmp", "eq", u, call), ("cmp", "lt", call, ("str", "a")), ("call", "contains", [call, ("str", "a")]),
+                ("call", "contains", [u, call]), ("cmp", "eq", ("call", "concat", [call, u]), u), ("cmp", "eq", ("call", "concat", [u, call]), u),
+                ("cmp", "eq", ("call", "length", [call]), k), ("in", call, [("str", "a"), u])]
+    return [("infix-operand", t) for t in out]
